@@ -22,19 +22,20 @@ inductive Block where
   | leaf (k : Kind)
   | grp (bs : Blocks)                                   -- `{ … }`
   | env (ty : Nat) (bs : Blocks)                        -- `\begin{ty} … \end{ty}`, `$ … $`
-  | list (ty nsp : Nat) (items : Items)                 -- list environment; `nsp` blanks before the first `\item`
+  | list (ty : Nat) (lead : List Bool) (items : Items)  -- list environment; `lead` = the blanks before the first `\item` (true = blank line / `\par`, false = space)
   | table (ty : Nat) (c : Blocks) (cs : Cells) (rs : Rows)   -- first cell, rest of first row, further rows
 inductive Blocks where
   | nil | cons (b : Block) (bs : Blocks)
 inductive Items where
-  | nil | cons (term nsp : Nat) (body : Blocks) (rest : Items)   -- `\item[term]`, blanks, body
+  | nil | cons (term : Nat) (lead : List Bool) (body : Blocks) (rest : Items)   -- `\item[term]`, blanks (spaces / blank lines), body
 inductive Cells where
   | nil | cons (c : Blocks) (rest : Cells)              -- `& cell`
 inductive Rows where
   | nil | cons (c : Blocks) (cs : Cells) (rest : Rows)  -- `\\ cell & cell …`
 end
 
-def spaces (d n : Nat) : Stream := List.replicate n (mkT d .space)
+/-- blanks as tokens: a space token, or the childless `\par` a blank line produces -/
+def blanks (d : Nat) (lead : List Bool) : Stream := lead.map fun p => mkT d (if p then Kind.par else Kind.space)
 
 mutual
 /-- tokens of a block written at context depth `d` -/
@@ -43,7 +44,7 @@ def Block.render (d : Nat) : Block → Stream
   | .grp bs => mkT (d + 1) .grpB :: (bs.render (d + 1) ++ [mkT d .grpE])
   | .env ty bs => mkT (d + 1) (.begin_ .env ty) :: (bs.render (d + 1) ++ [mkT d (.end_ .env ty)])
   | .list ty nsp is =>
-    mkT (d + 1) (.begin_ .list ty) :: (spaces (d + 1) nsp ++ (is.render (d + 1) ++ [mkT d (.end_ .list ty)]))
+    mkT (d + 1) (.begin_ .list ty) :: (blanks (d + 1) nsp ++ (is.render (d + 1) ++ [mkT d (.end_ .list ty)]))
   | .table ty c cs rs =>
     mkT (d + 2) (.begin_ .array ty) :: mkT (d + 2) .row :: mkT (d + 2) .cell ::
       (c.render (d + 2) ++ (cs.render (d + 2) ++ (rs.render (d + 2) ++ [mkT d (.end_ .array ty)])))
@@ -52,7 +53,7 @@ def Blocks.render (d : Nat) : Blocks → Stream
   | .cons b bs => b.render d ++ bs.render d
 def Items.render (d : Nat) : Items → Stream
   | .nil => []
-  | .cons term nsp body rest => mkT d (.item term) :: (spaces d nsp ++ (body.render d ++ rest.render d))
+  | .cons term nsp body rest => mkT d (.item term) :: (blanks d nsp ++ (body.render d ++ rest.render d))
 def Cells.render (d : Nat) : Cells → Stream
   | .nil => []
   | .cons c rest => mkT d .amp :: mkT d .cell :: (c.render d ++ rest.render d)
@@ -85,7 +86,7 @@ def Rows.nodes (d : Nat) : Rows → List Node
   | .cons c cs rest => .mk ⟨d, .row⟩ (.mk ⟨d, .cell⟩ (c.nodes d) :: cs.nodes d) :: rest.nodes d
 end
 
-/-- first block is not a blank (an item's leading blanks are counted in `nsp`, not in its body) -/
+/-- first block is not a blank (an item's leading blanks are counted in `lead`, not in its body) -/
 def Blocks.startsNonWs : Blocks → Bool
   | .nil => true
   | .cons (.leaf .space) _ => false
@@ -120,14 +121,14 @@ def Block.cost : Block → Nat
   | .leaf _ => 2
   | .grp bs => bs.cost + 4
   | .env _ bs => bs.cost + 4
-  | .list _ nsp is => is.cost + nsp + 4
+  | .list _ nsp is => is.cost + nsp.length + 4
   | .table _ c cs rs => c.cost + cs.cost + rs.cost + 10
 def Blocks.cost : Blocks → Nat
   | .nil => 0
   | .cons b bs => b.cost + bs.cost + 1
 def Items.cost : Items → Nat
   | .nil => 0
-  | .cons _ nsp body rest => body.cost + nsp + rest.cost + 4
+  | .cons _ nsp body rest => body.cost + nsp.length + rest.cost + 4
 def Cells.cost : Cells → Nat
   | .nil => 0
   | .cons c rest => c.cost + rest.cost + 4
